@@ -928,7 +928,11 @@ func c07Run(c *ev.Ctx) {
 				return
 			}
 			for _, rc := range []readCfg{cfgs[0], cfgs[2], cfgs[3], cfgs[4]} {
-				run(&streamCase{Fam: "T4", Base: b.Name, Mut: desc, Read: rc, stream: m}, false, -1, int64(2*rc.Conc+6)*(4<<20)+4<<20)
+				bmax := int64(4 << 20) // a mutation may raise the block-size code up to 4 MiB
+				if b.Legacy {
+					bmax = 8 << 20
+				}
+				run(&streamCase{Fam: "T4", Base: b.Name, Mut: desc, Read: rc, stream: m}, false, -1, int64(2*rc.Conc+6)*bmax+4<<20)
 			}
 		})
 	}
